@@ -212,6 +212,23 @@ def default_file_checks():
             checks[f"{name}_default_writes_empty_output"] = False
         r1, r2 = F.read(""), F.read("")
         checks[f"{name}_two_reads_independent_containers"] = r1.data is not r2.data
+    # the same clauses in binary storage (register and block families)
+    from io import BytesIO
+
+    for name, extra in (("RF", (4,)), ("BF", ())):
+        FB = type(name + "Binary", (env[name],), {"STORAGE": "BINARY"})
+        a, b = FB(), FB()
+        checks[f"{name}_binary_default_containers_not_shared"] = a.data is not b.data
+        try:
+            checks[f"{name}_binary_default_equals_read_empty"] = bool(a == FB.read(b"", *extra)) and bool(FB.read(b"", *extra) == a)
+        except Exception:
+            checks[f"{name}_binary_default_equals_read_empty"] = False
+        buf = BytesIO()
+        try:
+            a.write(buf)
+            checks[f"{name}_binary_default_writes_empty_output"] = buf.getvalue() == b""
+        except Exception:
+            checks[f"{name}_binary_default_writes_empty_output"] = False
     return checks
 
 
